@@ -11,17 +11,34 @@
 (*        match side { Buy / Sell } x { enough / not enough }               *)
 (*                                           -> OpenAcceptBuy,  OpenRejectFundsBuy,   *)
 (*                                              OpenAcceptSell, OpenRejectFundsSell   *)
-(*     FetchAccountSnapshot / FetchBalances / FetchTrades                   *)
-(*                                           -> FetchSnapshot, FetchBalances, FetchTrades *)
+(*     FetchAccountSnapshot / FetchBalances / FetchOrdersOpen / FetchTrades *)
+(*                                           -> FetchSnapshot, FetchBalances, *)
+(*                                              FetchOrdersOpen, FetchTrades  *)
+(*     CancelOrder (unsupported: logged, the response sender is dropped)    *)
+(*                                           -> CancelUnsupported           *)
 (*   barter-execution/src/exchange/mock/account.rs (AccountState)          *)
-(*                                           -> bal, open, trades           *)
+(*                                           -> bal, orders, trades         *)
+(*   barter-execution/src/client/mock/mod.rs (MockExecution): once the     *)
+(*     exchange task has ended every call answers ExchangeOffline            *)
+(*                                           -> Kill, Offline               *)
 (*                                                                         *)
-(* Units.  Prices and quantities are whole numbers; every *amount* (a       *)
+(* Units.  Prices and quantities are whole numbers (quantities may be       *)
+(* negative or zero, see below); every *amount* (a                          *)
 (* balance, the amount an order needs, a fee) is an integer count of        *)
 (* 1/100 units ("centi-units") and the fee rate is an integer percentage,   *)
-(* so   need(buy) = p*q*(100+fee)   need(sell) = q*(100+fee)   fee = p*q*fee *)
+(* so   need(buy) = p*|q|*(100+fee)  need(sell) = |q|*(100+fee)  fee = p*|q|*fee *)
 (* are exact.  `fee` = 100 x the configured `fees_percent` (the code uses   *)
 (* the configured number as a plain factor: 0.05 is five percent).          *)
+(*                                                                         *)
+(* The amount of an order is the MAGNITUDE of its quantity, for both sides   *)
+(* (the code takes `quantity.abs()` in both arms): a negative quantity needs *)
+(* and debits what the positive one does and reports the same (positive)     *)
+(* fee; the fill and the response carry the quantity as requested (signed).  *)
+(* A zero quantity needs nothing: a listed market order of quantity 0 is     *)
+(* accepted whatever the balance (0 >= 0), debits 0, consumes an id and      *)
+(* leaves a fill of quantity 0 with fee 0 and its two notifications - that   *)
+(* is what the unchanged code does, and what AcceptIff / ExactDebit say for  *)
+(* an amount of 0.                                                           *)
 (*                                                                         *)
 (* The world is fixed: three assets, two known instruments that share an    *)
 (* asset (btc is the base of one and the quote of the other) and one        *)
@@ -37,7 +54,12 @@
 (*     a fill carries that reading;                                         *)
 (*   * the order of the balance and the trade notification of one order     *)
 (*     (the projection sorts the notifications of one request by kind);     *)
-(*   * the bought asset is NOT credited (the statement does not ask it).    *)
+(*   * the bought asset is NOT credited (the statement does not ask it);    *)
+(*   * the order in which a trade query lists the fills (judged as a bag);  *)
+(*   * how a cancel request is answered while the exchange runs (the mock    *)
+(*     does not support cancels: any answer, but nothing may change).        *)
+(* The mock never rests an order itself: the orders of the account are those *)
+(* of the initial snapshot (open and cancelled ones), for ever.              *)
 (* A request is served the same way whether or not anybody still waits for  *)
 (* its answer: the spec has no notion of a consumed response, so ledger,     *)
 (* fills, ids and notifications of an abandoned OpenOrder are those of an    *)
@@ -50,12 +72,13 @@ EXTENDS Integers, Sequences, FiniteSets, TLC
 
 CONSTANTS Times,      \* client request times (ms offsets)
           Prices,     \* whole prices
-          Qtys,       \* whole quantities
+          Qtys,       \* whole quantities >= 0 a request may carry
+          NegQtys,    \* magnitudes that requests also carry negated (cfg files cannot write -n)
           BalInit,    \* initial balances (centi-units), total = free
           FeePcts,    \* fee rates in percent
           Lats,       \* configured round-trip latencies (ms)
           Sinces,     \* `time_since` arguments of FetchTrades
-          OpenCids,   \* client ids of the resting orders configured initially
+          OpenCids,   \* client ids of the orders (open / cancelled) configured initially
           MaxTrades,  \* bound on accepted orders (model checking only)
           IdSlack,    \* how far above nextId a fresh id may be
           ClockSlack  \* FALSE: the exchange clock reads request time + latency/2 (the code);
@@ -64,7 +87,8 @@ CONSTANTS Times,      \* client request times (ms offsets)
 VARIABLES fee,        \* configured fee percentage            (never changes)
           lat,        \* configured latency                   (never changes)
           bal,        \* [Assets -> [total, free]]            AccountState.balances
-          open,       \* set of resting orders                AccountState.orders_open
+          orders,     \* initial orders, st = open | cancelled AccountState.orders_open / orders_cancelled
+          up,         \* the exchange task is running
           nextId,     \* smallest id not yet handed out       MockExchange.order_sequence
           now,        \* exchange clock                       MockExchange.time_exchange_latest
           trades,     \* sequence of fills                    AccountState.trades
@@ -73,8 +97,8 @@ VARIABLES fee,        \* configured fee percentage            (never changes)
           res         \* the data returned by the request just served (queries)
 
 world  == <<fee, lat>>
-ledger == <<bal, open, nextId, trades, notif>>
-vars   == <<fee, lat, bal, open, nextId, now, trades, notif, last, res>>
+ledger == <<bal, orders, nextId, trades, notif>>
+vars   == <<fee, lat, bal, orders, up, nextId, now, trades, notif, last, res>>
 
 (***************************************************************************)
 (* The fixed world                                                         *)
@@ -88,10 +112,14 @@ Quote(i) == IF i = "btc_usdt" THEN "usdt" ELSE "btc"
 Sides == {"buy", "sell"}
 Kinds == {"market", "limit"}
 
-\* resting orders that may be configured in the initial account (never touched by market orders)
+\* orders that may be configured in the initial account (never touched by market orders):
+\* o1, o2 rest open, o3 (same instrument as o1) was cancelled
 OpenOrder(c) ==
   IF c = "o1" THEN [cid |-> "o1", instr |-> "btc_usdt", side |-> "buy",  p |-> 1, q |-> 1, filled |-> 0, st |-> "open"]
-              ELSE [cid |-> c,    instr |-> "eth_btc",  side |-> "sell", p |-> 2, q |-> 2, filled |-> 0, st |-> "open"]
+  ELSE IF c = "o3" THEN [cid |-> "o3", instr |-> "btc_usdt", side |-> "sell", p |-> 2, q |-> 1, filled |-> 0, st |-> "cancelled"]
+  ELSE [cid |-> c,    instr |-> "eth_btc",  side |-> "sell", p |-> 2, q |-> 2, filled |-> 0, st |-> "open"]
+
+OpenOnly(S) == {o \in S : o.st = "open"}
 
 (***************************************************************************)
 (* Requests, responses                                                     *)
@@ -99,18 +127,24 @@ OpenOrder(c) ==
 Req(op, t, side, p, q, instr, kind, since) ==
   [op |-> op, t |-> t, side |-> side, p |-> p, q |-> q, instr |-> instr, kind |-> kind, since |-> since]
 
-OpenReqs  == {Req("open", t, s, p, q, i, k, 0) : t \in Times, s \in Sides, p \in Prices, q \in Qtys, i \in Instrs, k \in Kinds}
+QtyDomain == Qtys \cup {0 - n : n \in NegQtys}
+OpenReqs  == {Req("open", t, s, p, q, i, k, 0) : t \in Times, s \in Sides, p \in Prices, q \in QtyDomain, i \in Instrs, k \in Kinds}
 SnapReqs  == {Req("snapshot", t, "none", 0, 0, "none", "none", 0) : t \in Times}
 BalReqs   == {Req("balances", t, "none", 0, 0, "none", "none", 0) : t \in Times}
+OrdReqs   == {Req("orders", t, "none", 0, 0, "none", "none", 0) : t \in Times}
 TradeReqs == {Req("trades", t, "none", 0, 0, "none", "none", s) : t \in Times, s \in Sinces}
-Requests  == OpenReqs \cup SnapReqs \cup BalReqs \cup TradeReqs
+CancelReqs == {Req("cancel", t, "none", 0, 0, i, "none", 0) : t \in Times, i \in Instrs}
+Requests  == OpenReqs \cup SnapReqs \cup BalReqs \cup OrdReqs \cup TradeReqs \cup CancelReqs
+KillReq   == Req("kill", 0, "none", 0, 0, "none", "none", 0)
 NoReq     == Req("init", 0, "none", 0, 0, "none", "none", 0)
 
-\* out: "ok" accepted, "rej" rejected, "query" a query was answered
+\* out: "ok" accepted, "rej" rejected, "query" a query was answered, "offline" the client reported
+\* the exchange offline, "killed" the exchange task was ended
 Resp(r, out, why, id, filled) == [req |-> r, out |-> out, why |-> why, id |-> id, filled |-> filled]
 
 NoBal  == [a \in Assets |-> [total |-> 0, free |-> 0]]
 NoRes  == [bal |-> NoBal, trades |-> <<>>, open |-> {}]
+CancelOutcomes == {"offline", "rej"}
 
 (***************************************************************************)
 (* What an order needs, which asset pays, what the fill reports             *)
@@ -118,8 +152,9 @@ NoRes  == [bal |-> NoBal, trades |-> <<>>, open |-> {}]
 Market(r)   == r.kind = "market"
 Listed(r)   == r.instr \in Known
 Spent(r)    == IF r.side = "buy" THEN Quote(r.instr) ELSE Base(r.instr)
-Need(r)     == IF r.side = "buy" THEN r.p * r.q * (100 + fee) ELSE r.q * (100 + fee)
-FeeQuote(r) == r.p * r.q * fee                      \* reported in the quote asset for both sides
+AbsQ(r)     == IF r.q < 0 THEN -r.q ELSE r.q         \* the amount of an order is |quantity|
+Need(r)     == IF r.side = "buy" THEN r.p * AbsQ(r) * (100 + fee) ELSE AbsQ(r) * (100 + fee)
+FeeQuote(r) == r.p * AbsQ(r) * fee                  \* reported in the quote asset for both sides
 Funded(r)   == bal[Spent(r)].free >= Need(r)
 Accepts(r)  == r.op = "open" /\ Market(r) /\ Listed(r) /\ Funded(r)
 
@@ -141,13 +176,17 @@ FreshIds == nextId .. (nextId + IdSlack)
 
 TradesSince(s) == SelectSeq(trades, LAMBDA x : x.t >= s)   \* AccountState::trades(time_since)
 
+\* two lists of fills with the same content (fill ids are unique), in any order
+SameFills(a, b) == Len(a) = Len(b) /\ {a[i] : i \in DOMAIN a} = {b[i] : i \in DOMAIN b}
+
 (***************************************************************************)
 (* Behaviour                                                               *)
 (***************************************************************************)
 Init == /\ fee \in FeePcts
         /\ lat \in Lats
         /\ bal \in {[a \in Assets |-> [total |-> f[a], free |-> f[a]]] : f \in [Assets -> BalInit]}
-        /\ open = {OpenOrder(c) : c \in OpenCids}
+        /\ orders = {OpenOrder(c) : c \in OpenCids}
+        /\ up = TRUE
         /\ nextId = 0
         /\ now = 0
         /\ trades = <<>>
@@ -157,12 +196,12 @@ Init == /\ fee \in FeePcts
 
 Tick(r, tt) == tt \in ClockChoices(r) /\ now' = tt
 
-Reject(r, tt, why) == /\ Tick(r, tt)
-                  /\ UNCHANGED <<world, ledger>>
+Reject(r, tt, why) == /\ up /\ Tick(r, tt)
+                  /\ UNCHANGED <<world, ledger, up>>
                   /\ last' = Resp(r, "rej", why, -1, 0)
                   /\ res' = NoRes
 
-Accept(r, id, tt) == /\ id \in FreshIds
+Accept(r, id, tt) == /\ up /\ id \in FreshIds
                  /\ Tick(r, tt)
                  /\ bal' = Debit(bal, Spent(r), Need(r))
                  /\ nextId' = id + 1
@@ -170,7 +209,7 @@ Accept(r, id, tt) == /\ id \in FreshIds
                  /\ notif' = notif \o <<BalNotif(Spent(r), bal'[Spent(r)]), FillNotif(Fill(id, r, tt))>>
                  /\ last' = Resp(r, "ok", "-", id, r.q)
                  /\ res' = NoRes
-                 /\ UNCHANGED <<world, open>>
+                 /\ UNCHANGED <<world, orders, up>>
 
 \* --- one action per arm of MockExchange::open_order ---
 OpenRejectKind(r, tt)      == r.op = "open" /\ ~Market(r) /\ Reject(r, tt, "kind")
@@ -181,21 +220,45 @@ OpenAcceptSell(r, id, tt)  == r.op = "open" /\ Market(r) /\ Listed(r) /\ r.side 
 OpenRejectFundsSell(r, tt) == r.op = "open" /\ Market(r) /\ Listed(r) /\ r.side = "sell" /\ ~Funded(r) /\ Reject(r, tt, "funds")
 
 \* --- queries: answer from the ledger, change nothing but the clock ---
-Query(r, tt, answer) == /\ Tick(r, tt)
-                    /\ UNCHANGED <<world, ledger>>
+Query(r, tt, answer) == /\ up /\ Tick(r, tt)
+                    /\ UNCHANGED <<world, ledger, up>>
                     /\ last' = Resp(r, "query", "-", -1, 0)
                     /\ res' = answer
 
-FetchSnapshot(r, tt) == r.op = "snapshot" /\ Query(r, tt, [NoRes EXCEPT !.bal = bal, !.open = open])
+\* account_snapshot lists the open and the cancelled orders; fetch_open_orders the open ones
+FetchSnapshot(r, tt) == r.op = "snapshot" /\ Query(r, tt, [NoRes EXCEPT !.bal = bal, !.open = orders])
 FetchBalances(r, tt) == r.op = "balances" /\ Query(r, tt, [NoRes EXCEPT !.bal = bal])
+FetchOrdersOpen(r, tt) == r.op = "orders" /\ Query(r, tt, [NoRes EXCEPT !.open = OpenOnly(orders)])
 FetchTrades(r, tt)   == r.op = "trades"   /\ Query(r, tt, [NoRes EXCEPT !.trades = TradesSince(r.since)])
 
-\* the step the exchange takes for request r with its clock reading tt (id matters for the
-\* accepting arms only)
-Serve(r, id, tt) == \/ OpenRejectKind(r, tt)  \/ OpenRejectInstr(r, tt)
-                    \/ OpenAcceptBuy(r, id, tt)  \/ OpenRejectFundsBuy(r, tt)
-                    \/ OpenAcceptSell(r, id, tt) \/ OpenRejectFundsSell(r, tt)
-                    \/ FetchSnapshot(r, tt) \/ FetchBalances(r, tt) \/ FetchTrades(r, tt)
+\* --- cancels are not supported: whatever the answer (o), nothing changes ---
+CancelUnsupported(r, tt, o) == /\ r.op = "cancel" /\ up /\ o \in CancelOutcomes
+                               /\ Tick(r, tt)
+                               /\ UNCHANGED <<world, ledger, up>>
+                               /\ last' = Resp(r, o, "-", -1, 0)
+                               /\ res' = NoRes
+
+\* --- the exchange task ends; from then on every client call reports the exchange offline and
+\*     nothing changes any more ---
+Kill == /\ up' = FALSE                               \* (ending an ended task is a no-op)
+        /\ UNCHANGED <<world, ledger, now>>
+        /\ last' = Resp(KillReq, "killed", "-", -1, 0)
+        /\ res' = NoRes
+
+Offline(r) == /\ ~up /\ r.op # "kill"
+              /\ UNCHANGED <<world, ledger, up, now>>
+              /\ last' = Resp(r, "offline", "-", -1, 0)
+              /\ res' = NoRes
+
+\* the step taken for request r with the exchange's clock reading tt (id matters for the
+\* accepting arms only, o for cancels only)
+Serve(r, id, tt, o) == \/ OpenRejectKind(r, tt)  \/ OpenRejectInstr(r, tt)
+                       \/ OpenAcceptBuy(r, id, tt)  \/ OpenRejectFundsBuy(r, tt)
+                       \/ OpenAcceptSell(r, id, tt) \/ OpenRejectFundsSell(r, tt)
+                       \/ FetchSnapshot(r, tt) \/ FetchBalances(r, tt) \/ FetchOrdersOpen(r, tt)
+                       \/ FetchTrades(r, tt) \/ CancelUnsupported(r, tt, o)
+                       \/ Offline(r)
+                       \/ (r.op = "kill" /\ Kill)
 
 Bounded == Len(trades) < MaxTrades
 
@@ -207,12 +270,21 @@ OpenAcceptSellA      == Bounded /\ \E r \in OpenReqs : \E id \in FreshIds : \E t
 OpenRejectFundsSellA == \E r \in OpenReqs : \E tt \in ClockChoices(r) : OpenRejectFundsSell(r, tt)
 FetchSnapshotA       == \E r \in SnapReqs : \E tt \in ClockChoices(r) : FetchSnapshot(r, tt)
 FetchBalancesA       == \E r \in BalReqs : \E tt \in ClockChoices(r) : FetchBalances(r, tt)
+FetchOrdersOpenA     == \E r \in OrdReqs : \E tt \in ClockChoices(r) : FetchOrdersOpen(r, tt)
 FetchTradesA         == \E r \in TradeReqs : \E tt \in ClockChoices(r) : FetchTrades(r, tt)
+CancelUnsupportedA   == \E r \in CancelReqs : \E tt \in ClockChoices(r) : \E o \in CancelOutcomes : CancelUnsupported(r, tt, o)
+KillA                == Kill
+\* (the answer does not depend on what is asked: one request of every kind stands for all)
+OneOf(S)             == IF S = {} THEN {} ELSE {CHOOSE r \in S : TRUE}
+OfflineReqs          == OneOf(OpenReqs) \cup OneOf(SnapReqs) \cup OneOf(BalReqs) \cup OneOf(OrdReqs)
+                          \cup OneOf(TradeReqs) \cup OneOf(CancelReqs)
+OfflineA             == ~up /\ \E r \in OfflineReqs : Offline(r)
 
 Next == \/ OpenRejectKindA \/ OpenRejectInstrA
         \/ OpenAcceptBuyA \/ OpenRejectFundsBuyA
         \/ OpenAcceptSellA \/ OpenRejectFundsSellA
-        \/ FetchSnapshotA \/ FetchBalancesA \/ FetchTradesA
+        \/ FetchSnapshotA \/ FetchBalancesA \/ FetchOrdersOpenA \/ FetchTradesA
+        \/ CancelUnsupportedA \/ KillA \/ OfflineA
 
 Spec == Init /\ [][Next]_vars
 
@@ -246,7 +318,7 @@ Rejected == last'.out = "rej"
 
 \* accepted iff a listed market order whose spent asset covers price x quantity plus fees (buy,
 \* quote asset) / quantity plus fees (sell, base asset)
-AcceptIffA == Served.op = "open" =>
+AcceptIffA == (Served.op = "open" /\ up) =>
                  /\ Accepted \/ Rejected
                  /\ Accepted <=> ( /\ Served.kind = "market" /\ Served.instr \in Known
                                    /\ bal[Spent(Served)].free >= Need(Served) )
@@ -274,7 +346,7 @@ OneFillA == /\ Accepted =>
                       /\ f.id = last'.id /\ f.oid = last'.id
                       /\ f.instr = Served.instr /\ f.side = Served.side
                       /\ f.p = Served.p /\ f.q = Served.q /\ last'.filled = Served.q
-                      /\ f.fee = f.p * f.q * fee
+                      /\ f.fee = f.p * (IF f.q < 0 THEN -f.q ELSE f.q) * fee /\ f.fee >= 0
                       /\ f.t = now'                                  \* stamped with the exchange clock
             /\ ~Accepted => trades' = trades
 
@@ -289,19 +361,26 @@ Notif11A == /\ Accepted =>
             /\ ~Accepted => notif' = notif
 
 \* snapshots and queries show the ledger; market orders never touch the resting orders
-QueriesReflectA == /\ Served.op = "snapshot" => res'.bal = bal /\ res'.open = open
-                   /\ Served.op = "balances" => res'.bal = bal
-                   /\ Served.op = "trades" =>
-                        res'.trades = SelectSeq(trades, LAMBDA x : x.t >= Served.since)
-                   /\ open' = open
+QueriesReflectA == /\ (Served.op = "snapshot" /\ up) => res'.bal = bal /\ res'.open = orders
+                   /\ (Served.op = "balances" /\ up) => res'.bal = bal
+                   /\ (Served.op = "orders" /\ up) => res'.open = {o \in orders : o.st = "open"}
+                   /\ (Served.op = "trades" /\ up) =>
+                        SameFills(res'.trades, SelectSeq(trades, LAMBDA x : x.t >= Served.since))
+                   /\ orders' = orders
+
+\* once the exchange task has ended it stays ended, every call is answered "offline", and only then
+OfflineA_ == /\ (~up => ~up')
+             /\ (~up => last'.out \in {"offline", "killed"})
+             /\ (last'.out = "offline" => (~up \/ Served.op = "cancel"))
+             /\ (last'.out \in {"offline", "killed"} => UNCHANGED ledger)
 
 ConfigFixedA == fee' = fee /\ lat' = lat
 
 \* the exchange clock reads an instant between the request and the arrival of its answer
-ClockA == now' >= Served.t /\ now' <= Served.t + lat
+ClockA == (up /\ Served.op # "kill") => (now' >= Served.t /\ now' <= Served.t + lat)
 
 StepProps == AcceptIffA /\ ExactDebitA /\ RejectPureA /\ FreshIdsA /\ OneFillA /\ Notif11A
-             /\ QueriesReflectA /\ ConfigFixedA /\ ClockA
+             /\ QueriesReflectA /\ ConfigFixedA /\ ClockA /\ OfflineA_
 
 AcceptIff      == [][AcceptIffA]_vars
 ExactDebit     == [][ExactDebitA]_vars
@@ -312,8 +391,9 @@ Notif11        == [][Notif11A]_vars
 QueriesReflect == [][QueriesReflectA]_vars
 ConfigFixed    == [][ConfigFixedA]_vars
 Clock          == [][ClockA]_vars
+OfflineStep    == [][OfflineA_]_vars
 
 \* `now` is written before it is read in every step and `last`/`res` only record the step: none of
 \* them influences what can happen next, so states are identified up to them.
-View == <<fee, lat, bal, open, nextId, trades, notif>>
+View == <<fee, lat, bal, orders, up, nextId, trades, notif>>
 =============================================================================
